@@ -451,6 +451,24 @@ pub fn replay(v: &serde_json::Value) -> Option<Result<(), String>> {
                 o => Err(format!("expected a successful build, got {}", o.brief())),
             })
         }
+        "message_orders" => {
+            let src = v.get("src")?.as_str()?;
+            let orders = v.get("orders")?.as_array()?.clone();
+            Some(match build(src) {
+                Outcome::Ok(r) => {
+                    let fits = orders.iter().any(|o| {
+                        let o = o.as_array().cloned().unwrap_or_default();
+                        o.len() == r.messages.len() && r.messages.iter().zip(o.iter()).all(|(g, e)| g.contains(e.get(0).and_then(|x| x.as_str()).unwrap_or("\u{0}")) && has_token(g, &e.get(1).and_then(|x| x.as_u64()).unwrap_or(0).to_string()))
+                    });
+                    if fits {
+                        Ok(())
+                    } else {
+                        Err(format!("messages {:?} are in none of the accepted orders", r.messages))
+                    }
+                }
+                o => Err(format!("expected a successful build, got {}", o.brief())),
+            })
+        }
         _ => None,
     }
 }
@@ -463,6 +481,32 @@ pub fn run(ctx: &Ctx) -> Result<Ev, String> {
     let mut total = par::run_shards("C15", shards, |s| par::prop_shard("C15", seed, s, per, &fault_case(), |c, ev| test_fault(c, ev)));
     let m = par::run_shards("C15", shards, |s| par::prop_shard("C15", seed, 1000 + s, per_m, &msg_case(), |c, ev| test_msg(c, ev)));
     total.merge(m);
+    // messages issued from macro bodies: "source order" can be read as the order of the lines in the
+    // text or as the order in which the lines are assembled (the call's position); both are accepted,
+    // anything else is not an order of the source at all
+    for (tag, src, textual, assembled) in [
+        ("defined-before-use", ".macro c15m\n.message \"in macro\"\nnop\n.endm\n.message \"first\"\nc15m\n.message \"last\"\n", vec![("in macro", 2), ("first", 5), ("last", 7)], vec![("first", 5), ("in macro", 2), ("last", 7)]),
+        ("called-twice", ".macro c15m\n.warning \"in macro\"\nnop\n.endm\n.message \"first\"\nc15m\n.message \"middle\"\nc15m\n.message \"last\"\n", vec![("in macro", 2), ("in macro", 2), ("first", 5), ("middle", 7), ("last", 9)], vec![("first", 5), ("in macro", 2), ("middle", 7), ("in macro", 2), ("last", 9)]),
+        ("defined-after-use", ".message \"first\"\nc15m\n.message \"last\"\n.macro c15m\n.message \"in macro\"\nnop\n.endm\n", vec![("first", 1), ("last", 3), ("in macro", 5)], vec![("first", 1), ("in macro", 5), ("last", 3)]),
+        ("nested", ".macro c15i\n.message \"inner\"\n.endm\n.macro c15o\n.message \"outer a\"\nc15i\n.message \"outer b\"\n.endm\n.message \"first\"\nc15o\n.message \"last\"\n", vec![("inner", 2), ("outer a", 5), ("outer b", 7), ("first", 9), ("last", 11)], vec![("first", 9), ("outer a", 5), ("inner", 2), ("outer b", 7), ("last", 11)]),
+    ] {
+        total.eval();
+        total.class("message-from-macro-body");
+        total.nt(fp(&src));
+        let fits = |msgs: &[String], want: &[(&str, u32)]| msgs.len() == want.len() && msgs.iter().zip(want).all(|(g, (t, l))| g.contains(t) && has_token(g, &l.to_string()));
+        match build(src) {
+            Outcome::Ok(r) => {
+                if !fits(&r.messages, &textual) && !fits(&r.messages, &assembled) {
+                    total.violation(Violation {
+                        sig: "c15:messages:macro-body:order".into(),
+                        what: format!("[{}] `{}` gives {:?}; neither the textual order {:?} nor the order of assembly {:?}", tag, src.replace('\n', " | "), r.messages, textual, assembled),
+                        replay: json!({"kind": "message_orders", "src": src, "orders": [textual.iter().map(|(t, l)| json!([t, l])).collect::<Vec<_>>(), assembled.iter().map(|(t, l)| json!([t, l])).collect::<Vec<_>>()]}),
+                    });
+                }
+            }
+            o => total.violation(Violation { sig: "c15:messages:macro-body:rejected".into(), what: format!("[{}] {}", tag, o.brief()), replay: Check::MustBuild { src: src.to_string() }.to_json() }),
+        }
+    }
     if total.has_violation() {
         return Ok(total);
     }
@@ -483,5 +527,5 @@ pub fn run(ctx: &Ctx) -> Result<Ev, String> {
 }
 
 pub fn rule() -> String {
-    "fault leg: a valid program of 100 padding lines + 20–59 generated line groups (instructions, labels, data, .equ, .set, comments, blank lines, taken/untaken conditionals with garbage) in which every literal is below 100, so that the three-digit line number of the fault cannot occur otherwise; exactly one injected fault of 13 kinds (syntax error, unknown mnemonic/macro, operand of the wrong kind, immediate / data value / branch out of range, undefined symbol in an instruction / data directive / .set / .if, duplicate label) at a generated position, LF or CRLF; the error text must contain the line number as a stand-alone decimal token (either definition for a duplicate label) and, after k blank lines are inserted above, the number + k; every 16th case also checks that the program without the fault builds. Message leg: .message/.warning at top level, in taken and untaken arms and in an EEPROM block, .error at top level / taken arm / untaken arm: images equal those of the program with the directives blanked, the message list has exactly the assembled ones in source order with their own line numbers, .error fails the build exactly when assembled. Non-trivial = a fault with another line of the same family elsewhere in the program, a message program with ≥2 assembled messages and a conditional, or an assembled .error; distinct = distinct program text".into()
+    "fault leg: a valid program of 100 padding lines + 20–59 generated line groups (instructions, labels, data, .equ, .set, comments, blank lines, taken/untaken conditionals with garbage) in which every literal is below 100, so that the three-digit line number of the fault cannot occur otherwise; exactly one injected fault of 13 kinds (syntax error, unknown mnemonic/macro, operand of the wrong kind, immediate / data value / branch out of range, undefined symbol in an instruction / data directive / .set / .if, duplicate label) at a generated position, LF or CRLF; the error text must contain the line number as a stand-alone decimal token (either definition for a duplicate label) and, after k blank lines are inserted above, the number + k; every 16th case also checks that the program without the fault builds. Message leg: .message/.warning at top level, in taken and untaken arms and in an EEPROM block, .error at top level / taken arm / untaken arm: images equal those of the program with the directives blanked, the message list has exactly the assembled ones in source order with their own line numbers, .error fails the build exactly when assembled; messages issued from macro bodies (defined before / after use, called twice, nested) must come in the textual order of their lines or in the order of assembly, with their own line numbers. Non-trivial = a fault with another line of the same family elsewhere in the program, a message program with ≥2 assembled messages and a conditional, or an assembled .error; distinct = distinct program text".into()
 }
